@@ -2,11 +2,11 @@ from vdriver import U
 from treeshapes import rbt_shapes
 
 PROPERTY = {
-    "level": "other",
+    "level": "proof",
     "explanation": "the real insert / remove / lookup code run on EVERY valid red-black tree of depth <= 3 (<= 7 nodes; one unit per tree shape, colours/keys/positions symbolic; depth <= 4 = up to 15 nodes in the thorough tier), every key position (new or resident) and every node to remove; the result is judged by a recursive checker over the actual links (search order, parent links, black root, no red node with a red child, equal black heights) and by node count + lookups (element set)",
     "trusted_base": ["cbmc 6.11.0 (SAT back end CaDiCaL)"],
     "assumptions": [
-        "induction over histories: every operation is verified from every valid tree of the bounded depth; deeper trees are not covered (the step lemmas of the two fix-up loops planned in DESIGN.md section 5 were not demonstrated; the loop-head hooks in src/rbt.c are unused)",
+        "induction over histories: every operation is verified from every valid tree of the bounded depth; UNBOUNDED part: rbt_lemma_insert_step / rbt_lemma_remove_step prove the inductive step of the two fix-up loops (a_rbt_insert_adjust, a_rbt_remove_adjust; all cases and mirrors, packed layout) on windows with ghost black heights up to 2^20, using the loop-head hooks of src/rbt.c: every terminating path restores a valid tree with the old black height, the continuing path re-establishes the loop invariant one level up; the induction over the climb loop is a paper step. Descent, the three unlink cases of a_rbt_remove and the decision whether to call the fix-up are decided only on the bounded whole trees",
         "whole-tree units use the node layout with separate parent/factor fields (A_SIZE_POINTER=1): cbmc cannot propagate pointers through the packed parent word ((uintptr)parent + colour) and the packed whole-tree encoding needs > 40 GB. The packed layout is covered by accessor round-trip proofs  and, in the thorough tier only, by packed whole-tree units on trees of depth <= 2 (heavy: minutes and tens of GB); the few layout-specific lines outside the accessors (a_rbt_set_parents / a_rbt_remove copy the packed word) are only exercised there",
         "the comparison callback returns the key difference (any magnitude): only its sign may be used",
     ],
@@ -26,8 +26,11 @@ for m in rbt_shapes(3):
     if m:
         UNITS.append(T("rbt_remove_d3_s%02x" % m, "h_remove", 3, defs=["A_SIZE_POINTER=1", "SHAPE=0x%x" % m], functions=REM, bound=b, timeout=900))
 UNITS += [
-    U("rbt_lemma_remove_step", "rbt_lemma.c", "h_remove_step", level="L", functions=["a_rbt_remove_adjust", "a_rbt_set_parents", "a_rbt_set_parent_color", "a_rbt_set_black"], min_obl=5, unwind=9,
+    U("rbt_lemma_remove_step", "rbt_lemma.c", "h_remove_step", level="L", functions=["a_rbt_remove_adjust", "a_rbt_set_parents", "a_rbt_set_parent_color", "a_rbt_set_black"], replay={"prog": "trees_search.c", "sources": ["rbt.c"], "mode": "rbt", "timeout": 600}, min_obl=5, unwind=9,
       defines=["LEMMA_REMOVE"], cbmc=["--object-bits", "10"], solver="cadical", timeout=1200, key=["remove_adjust step \\(done\\)", "remove_adjust step \\(continue\\)"]),
+    U("rbt_lemma_insert_step", "rbt_lemma.c", "h_insert_step", level="L", functions=["a_rbt_insert_adjust", "a_rbt_set_parents", "a_rbt_set_parent_color"], min_obl=5, unwind=9,
+      replay={"prog": "trees_search.c", "sources": ["rbt.c"], "mode": "rbt", "timeout": 600},
+      defines=["LEMMA_INSERT"], cbmc=["--object-bits", "10"], solver="cadical", timeout=1200, key=["insert_adjust step \\(done\\)", "insert_adjust step \\(continue\\)"]),
     U("rbt_packed_accessors", "trees.c", "h_packed", level="P", functions=["a_rbt_set_parent_color", "a_rbt_set_parent", "a_rbt_set_black", "a_rbt_parent", "a_rbt_color", "a_rbt_init"], replay=RP, min_obl=3, defines=["TREE_RBT", "D=2"], cbmc=["--object-bits", "10"]),
     T("rbt_insert_d2_packed", "h_insert", 2, tiers=("thorough",), functions=INS, timeout=1800, cost=100, mem_gb=40),
     T("rbt_remove_d2_packed", "h_remove", 2, tiers=("thorough",), functions=REM, timeout=1800, cost=100, mem_gb=40),
